@@ -111,6 +111,74 @@ def build(targets):
     return rc == 0, out
 
 
+def _tree_size(t):
+    try:
+        if isinstance(t, list) and len(t) == 2 and isinstance(t[1], list):
+            return 1 + sum(_tree_size(c) for c in t[1])
+    except Exception:  # noqa: BLE001
+        pass
+    return None
+
+
+_ERRNAME = re.compile(r"^[A-Z][A-Za-z]*(Error|Abort[:\w]*|Exception)$")
+
+
+def generic_distribution(cases, results):
+    """input distribution of a chunk for properties without a bespoke one: family, node classes, tree sizes, scalar
+    options of the case and of its queries, and the outcome kinds seen in the implementation's results"""
+    d = {"family": {}, "tree_size": {}, "options": {}, "outcomes": {}}
+
+    def bump(table, key):
+        table[key] = table.get(key, 0) + 1
+
+    def outcomes(x, depth=0):
+        if depth > 4:
+            return
+        if isinstance(x, str):
+            if _ERRNAME.match(x):
+                bump(d["outcomes"], x.split(":")[0])
+        elif isinstance(x, dict):
+            for k, v in x.items():
+                if k in ("exc", "res", "error") and isinstance(v, str):
+                    bump(d["outcomes"], v.split(":")[0])
+                elif k == "CountError":
+                    bump(d["outcomes"], "CountError")
+                else:
+                    outcomes(v, depth + 1)
+        elif isinstance(x, list):
+            for v in x[:50]:
+                outcomes(v, depth + 1)
+
+    for c, r in zip(cases, results):
+        bump(d["family"], c.get("fam", "?"))
+        for key in ("tree",):
+            sz = _tree_size(c.get(key))
+            if sz is not None:
+                bump(d["tree_size"], str(sz) if sz < 10 else ("10-19" if sz < 20 else "20+"))
+        for t in c.get("trees", []) if isinstance(c.get("trees"), list) else []:
+            sz = _tree_size(t)
+            if sz is not None:
+                bump(d["tree_size"], str(sz) if sz < 10 else ("10-19" if sz < 20 else "20+"))
+        for k, v in c.items():
+            if k.startswith("_") or k in ("fam", "tree", "trees", "names", "queries", "ops", "attrs", "values", "lines", "pairs", "ca", "data", "params"):
+                continue
+            if isinstance(v, (str, bool, int)) or v is None:
+                if isinstance(v, int) and not isinstance(v, bool) and k not in ("maxlevel", "indent", "n0", "k"):
+                    continue
+                bump(d["options"], "%s=%s" % (k, v))
+        for q in c.get("queries", []) if isinstance(c.get("queries"), list) else []:
+            if isinstance(q, dict):
+                for k in ("fn", "relax", "ignorecase"):
+                    if k in q:
+                        bump(d["options"], "query.%s=%s" % (k, q[k]))
+        if isinstance(c.get("ops"), list):
+            for o in c["ops"]:
+                if isinstance(o, dict) and "op" in o:
+                    bump(d["options"], "op=%s" % o["op"])
+        outcomes(r)
+    return d
+
+
 def merge_counts(a, b):
     """sum two nested dictionaries of counts (input distributions computed chunk by chunk)"""
     if isinstance(a, dict) and isinstance(b, dict):
